@@ -901,8 +901,6 @@ def run(chk):
     chk.partial += ["find_reversals_spec_partial / recount_find_reversals_partial: proved for signals without plateaus; with "
                     "plateaus the finder's extra points are validated by search only (known finding F8b)"]
     chk.matchers["F8b"] = lambda f: f.get("clause") == "recount-find_reversals" and is_f8b_shape(f["input"]["series"])
-    chk.matchers["F8u"] = is_f8u
-    chk.matchers["F8w"] = is_f8w
     drv = core.Driver()
     rng = chk.rng
     cases, forced, extra_sp = [], [], []
